@@ -297,14 +297,16 @@ impl Writer for ProtobufWriter<'_> {
         // signed types, while the inner branches determine 32- or 64-bitness
         #[allow(clippy::collapsible_if)]
         if const_unwrap_or!(C::MIN, 0) >= 0 {
-            if const_unwrap_or!(C::MAX, i64::MAX) <= i64::from(u32::MAX) {
+            // the root bounds of an extensible constraint say nothing about the value: 64 bit, as the schema declares
+            if !C::EXTENSIBLE && const_unwrap_or!(C::MAX, i64::MAX) <= i64::from(u32::MAX) {
                 let value = value.to_i64() as u32; // safe cast because of check above
                 self.buffer.write_tagged_uint32(tag, value)?;
             } else {
                 let value = value.to_i64() as u64; // safe cast because of first check
                 self.buffer.write_tagged_uint64(tag, value)?;
             }
-        } else if const_unwrap_or!(C::MIN, i64::MIN) >= i64::from(i32::MIN)
+        } else if !C::EXTENSIBLE
+            && const_unwrap_or!(C::MIN, i64::MIN) >= i64::from(i32::MIN)
             && const_unwrap_or!(C::MAX, i64::MAX) <= i64::from(i32::MAX)
         {
             let value = value.to_i64() as i32; // safe cast because of check above
